@@ -80,6 +80,52 @@ func VThrottleRate() {
 	})
 }
 
+// VThrottleBurst (urgent clock: the library's timers fire exactly on time; the
+// producer is always ready; the consumer idles for a symbolic time before each
+// receive - idle periods followed by bursts): no window of length `interval`
+// sees more than B = 2*ops+1+c deliveries, i.e. d[i+B] - d[i] >= interval.
+func VThrottleBurst() {
+	ops := vrt.Param("ops", 1)
+	capc := vrt.Param("cap", 0)
+	interval := vrt.Param("interval", 10)
+	n := vrt.Param("n", 4)
+	bound := 2*ops + 1 + capc
+	ctx, cancel := context.WithCancel(context.Background())
+	_ = cancel
+	var xs, stall [v13N]int
+	for i := 0; i < n; i++ {
+		xs[i] = vrt.Int("x")
+		stall[i] = vrt.Int("stall")
+		vrt.Assume(stall[i] >= 0 && stall[i] <= 4*interval)
+	}
+	ch := make(chan int, capc)
+	vrt.Go("producer", func() {
+		for i := 0; i < n; i++ {
+			ch <- xs[i]
+		}
+		close(ch)
+	})
+	out := Throttling(ctx, (<-chan int)(ch), ops, time.Duration(interval))
+	vrt.Daemon("Throttling[int]$1")
+	var d [v13N]int
+	got := 0
+	vrt.Go("consumer", func() {
+		for i := 0; i < n; i++ {
+			time.Sleep(time.Duration(stall[i]))
+			v, ok := <-out
+			now := vrt.Now()
+			vrt.Assert("burst.order", vrt.And(ok, v == xs[i]))
+			d[i] = now
+			if i >= bound {
+				vrt.Assert("burst.rate-bound", now-d[i-bound] >= interval)
+			}
+			got++
+		}
+		vrt.Cover("burst.consumer-done")
+	})
+	vrt.Final("burst.complete", func() bool { return got == n && vrt.Exited("producer") && vrt.Exited("consumer") })
+}
+
 // VThrottlePace (urgent clock, input always available, consumer always
 // ready): element i is delivered no earlier than floor(i/ops)*interval and no
 // later than one interval after that.
